@@ -109,6 +109,9 @@ func run(c *vf.Ctx, name string, public, vault bool, nblocks, nval int) {
 	mixNames := []string{"default", "gov", "wide", "contract", "ties", "gov", "ties"}
 	for no := uint64(1); no <= uint64(nblocks); no++ {
 		mix := mixNames[r.Intn(len(mixNames))]
+		if no%4 == 3 {
+			mix = "ties" // a fixed share of blocks with equal stakes and competing parameter candidates
+		}
 		if vault && no <= 4 {
 			mix = "gov" // voters first: the reward goes to a voter picked from the voting-power ranking
 		}
